@@ -1,11 +1,14 @@
 """C18 -- local helper functions and constant expressions in rules files are transparent.
 
-P: expandMacro / localDefine / toStringValue / convertFilterExpr and the path table of convertFilterExprImpl are regenerated
-   from /repo (go2coq macroshape); the theorems (a helper call converts to what the inlined expression converts to, or Load
-   fails; outside helper bodies only the folded constant matters) are stated over the regenerated path table.
-K: helper bodies and call arguments generated by the harness are also printed as terms of the Coq model; the model's verdict
-   (rejected / equal to the inlined conversion) is computed with vm_compute and compared with what irconv did.
-O: the property itself: one abstract description rendered (a) with helpers and (b) manually inlined by the generator; both
+P: expandMacro / localDefine / findLocalMacro / convertRuleGroup / ConvertFile / toStringValue / convertFilterExpr, the path table
+   of convertFilterExprImpl, every write of the helper table conv.groupFuncs and the place of its reset are regenerated from
+   /repo (go2coq macroshape); the theorems (a filter with helper calls -- nested, any table -- converts to what the hand-inlined
+   expression converts to, or Load fails; every group converts as if it were alone in the file; outside helper bodies only the
+   folded constant matters) are stated over the regenerated tables.
+K: every generated rules file (several groups, helper definitions and rules in statement order) is also printed as a term of
+   the Coq model; the model's verdict (some rule rejected / every rule equal to the conversion of its inlined form) is computed
+   with vm_compute and compared with what irconv did.
+O: the property itself: one abstract file rendered (a) with helpers and (b) manually inlined by the generator's own inliner; both
    converted and loaded; (a) must fail to load or have the same IR (Src/Line normalised) and the same reports on a probe
    file; every constant spelling of a string / int argument must give the IR and reports of the plain literal.
 """
@@ -16,22 +19,27 @@ import re
 
 def run(c):
     thorough = c.tier == "thorough"
-    c.rule = ("helper cases: random helper (1-3 params of type dsl.Var/string/int, possibly named like a selected field or the matcher), body of "
-              "1-3 atoms with constant spellings (raw/concat/named/parenthesised/hex/octal/arith/float), optional nested helper and call-site "
-              "context; const cases: one spelled argument vs its plain literal; distinct by source text; non-trivial when (a) loads "
-              "(equality is really compared) or the spelling is not a plain literal")
+    c.go2coq_sources = ["load.go"]
+    c.rule = ("helper cases: a rules file of 1-3 groups (matcher named m/mt/q), each with 1-3 local helpers named f/g/h (so later groups "
+              "redefine the names of earlier ones with other bodies and parameter lists), 0-6 params of type dsl.Var/string/int/dsl.Matcher in any "
+              "order (possibly named like a selected field or the matcher), bodies of 1-3 atoms with constants in every literal spelling "
+              "(decimal, hex, legacy octal 0644, 0o, 0b, underscores; raw/concat/named/parenthesised/arith/float), nested calls of earlier "
+              "helpers, rules between the definitions, arguments spelled as literals, parenthesised, or as named constants -- preferably ones "
+              "spelled like a parameter of the called helper --, package-level variables, group-level constants that shadow package-level ones, "
+              "a package-level function named like an earlier group's helper; const cases: one spelled argument vs its plain literal; distinct "
+              "by source text; non-trivial when (a) loads (equality is really compared) or the spelling is not a plain literal")
     c.trusted += [
-        "go2coq macroshape (pinned statement lists, path table of convertFilterExprImpl)",
+        "go2coq macroshape (pinned statement lists, path table of convertFilterExprImpl, scan of the writes of conv.groupFuncs and of the reset position)",
         "the constant annotations the harness attaches to the model terms (what go/types folds) and the generator's own inliner",
         "harness/cmd/c18, hook ruleguard.VerifConvertAST",
     ]
-    c.notes += ["the conversion model is the control skeleton of convertFilterExprImpl (constant first, then structure, matcher paths by table); "
-                "nested helper calls and loader-level errors are covered by the twin oracle only",
+    c.notes += ["the conversion model is the control skeleton of convertFilterExprImpl (constant first, then structure, matcher paths by table, "
+                "helper lookup / argument check / expansion with the per-group table); loader-level errors are covered by the twin oracle only",
                 "[consistent] (a folded string/int constant is a literal, a parenthesised constant or a shape the converter rejects; m[...] is "
                 "indexed by a string literal) is an assumption about go/types, exercised by the correspondence"]
 
     c.build_theories()
-    c.require_theories("Load/Macro.v")
+    c.require_theories("Load/Macro.v", "Load/MacroEnv.v")
     g = c.go2coq("macroshape", "Gen_Macro.v")
     gen_ok = False
     if g:
@@ -75,13 +83,10 @@ def run(c):
         if not gen_ok or not ms:
             return {}
         pre = ["From Coq Require Import List String Ascii Bool ZArith.",
-               "From RG.Load Require Import Macro.",
+               "From RG.Load Require Import Macro MacroEnv.",
                "From RGW Require Import Gen_Macro Inst_Macro.",
                "Import ListNotations. Local Open Scope string_scope.",
-               "Definition verdict (c : dexpr * list (string * dexpr)) : nat :=",
-               "  let '(body, ps) := c in",
-               "  match gen_convert 40 (expand ps body), gen_convert 40 (subst ps body) with",
-               "  | None, _ => 0 | Some a, Some b => if fexpr_eqb a b then 1 else 2 | Some _, None => 3 end."]
+               "Definition verdict := file_verdict."]
         NSH = 6
         jobs = []
         for k in range(NSH):
@@ -146,7 +151,7 @@ def run(c):
                            observed="ok", expected=b.get("conv_err") or b.get("load_err"))
             if nsample < 4 and x["kind"] == "helper" and (sa == "ok") == (nsample % 2 == 0):
                 nsample += 1
-                c.sample({"with_helpers": x["src_a"].split("func g0")[1], "inlined_where": x["src_b"].split("Where(")[1].split(").\n")[0],
+                c.sample({"with_helpers": "func g0" + x["src_a"].split("func g0", 1)[1], "inlined": "func g0" + x["src_b"].split("func g0", 1)[1],
                           "status": sa, "error": a.get("conv_err") or a.get("load_err"), "reports": a.get("reports")})
         hs = [x for x in cases if x["kind"] == "helper"]
         c.coverage["helper_cases"] = c.coverage.get("helper_cases", 0) + len(hs)
@@ -154,6 +159,11 @@ def run(c):
         c.coverage["helper_rejected"] = c.coverage.get("helper_rejected", 0) + sum(1 for x in hs if status(x["a"]) != "ok")
         c.coverage["unhygienic_param_cases"] = c.coverage.get("unhygienic_param_cases", 0) + sum(1 for x in hs if x.get("unhygienic"))
         c.coverage["nested_cases"] = c.coverage.get("nested_cases", 0) + sum(1 for x in hs if x.get("nested"))
+        for key, fld in (("several_groups_cases", None), ("same_helper_name_in_two_groups", "same_name"), ("argument_spelled_like_a_parameter", "param_named"),
+                         ("legacy_octal_in_helper_body", "octal"), ("package_func_named_like_helper", "pkg_func")):
+            for tag, pred in (("", lambda x: True), ("_loaded", lambda x: status(x["a"]) == "ok")):
+                c.coverage[key + tag] = c.coverage.get(key + tag, 0) + sum(
+                    1 for x in hs if pred(x) and (x.get("groups", 1) > 1 if fld is None else x.get(fld)))
         c.coverage["const_cases"] = c.coverage.get("const_cases", 0) + len(cases) - len(hs)
         c.coverage["model_vs_impl_cases"] = c.coverage.get("model_vs_impl_cases", 0) + len(verdict)
 
